@@ -6,8 +6,8 @@ package main
 //   pair shape=<fixed|echo|acc> reqs=a,b,c startval=V seed=S jitter=J park=P
 //       one target, callers 0..n-1; caller i issues reqs[i] sequential YieldFrom(target, i*1000+s) (s = 1..);
 //       the target performs (startval>0 ? 1 : 0) + sum(reqs) YieldRefs.  y_k is decided by the shape from what the
-//       target has received so far.  park=1 holds the target at cor.yieldref.afterRecv for every op until at
-//       least two further requests are queued (or no more can come), which forces opCh to fill beyond 5.
+//       target has received so far.  park=1 makes the target pause 300 µs before every third YieldRef so that
+//       requests pile up in opCh (beyond its buffer of 5 with enough callers).
 //       ty=int|any|ptr element type (interface{} / *int have a nil value); startval=nil: StartWithVal(zero of T);
 //       late=<ms> / slow=<ms>: the target starts serving late / sleeps before every YieldRef.
 //       Monitors (schedule independent): per caller the target saw exactly its x's in order; each caller got
